@@ -151,6 +151,15 @@ class AccfgMachine(Machine):
                     self.probe("loop-head-state-checked")
 
     def on_for_exit(self, op, vals, core):
+        a = op.attributes.get("accfg.effects")
+        if isinstance(a, accfg.EffectsAttr) and a.data != accfg.EffectsEnum.NONE:
+            # the provider of the IR says that this loop as a whole touches the accelerators (A2): it does
+            tag = _tag(op)
+            k = core.occurrence(("annotated-for", tag))
+            self.hist.append(("call", tag, k))
+            self.clobber(tag, k)
+            self.probe("annotated-region-op")
+            return  # (no state can be claimed for its results)
         if self.check_infer:
             for r in op.results:
                 if isinstance(r.type, accfg.StateType):
